@@ -508,3 +508,93 @@ class SolveVsLoop(BoundedCheck):
 def json_key(case):
     import json
     return json.dumps(case, sort_keys=True, default=str)
+
+
+# ---------------------------------------------------------------------------------------------------------------------
+# C02 on equation systems of the C01 grammar: the real solver against an independent Gauss-Seidel loop over the derivation tree
+# ---------------------------------------------------------------------------------------------------------------------
+class SolveGrammarDifferential(BoundedCheck):
+    """solve_t of the class built from a random program of the C01 grammar (contractive, divergent or oscillating as it happens), against a
+    reference loop written from the statement: passes in symbol order over the derivation tree, stop at the first pass >= min_iter in which
+    every endogenous value at t moved by less than tol, at most max_iter passes.  Runs in which the reference meets a non-finite value are
+    left to the policy checks (C06)."""
+    name = 'c02.grammar-systems'
+    props = ('C02',)
+    bound_quick = 'catalogue + 150 seeded random programs x 2 data sets x (min_iter, max_iter, tol) in {(0,1),(0,4),(2,4),(0,60),(3,60)} x {1e-6, 0.05} at a middle and a negative period position'
+    bound_thorough = '2000 random programs'
+    required_covers = ('solved', 'failed', 'min_iter-binding')
+
+    def cases(self, tier, seed):
+        from props.parser_bounded import programs
+        from verif import grammar as G
+        rnd = random.Random(4242 + seed)
+        for name, p in programs(tier, seed, 2000 if tier == 'thorough' else 150):
+            if p:
+                yield {'script': G.render_script(p), 'seed': rnd.randrange(10 ** 6)}
+
+    def check(self, case, res: BoundedResult):
+        import fsic
+        from verif import grammar as G
+        out = []
+        script = case['script']
+        p = G.parse_script(script)
+        ref = G.classify(p)
+        if any(nm.startswith('_') for nm in ref['names']):
+            return out          # private-name mangling (recorded finding F24, reported by C01)
+        try:
+            Model = fsic.build_model(fsic.parse_model(script))
+        except Exception:  # noqa: BLE001
+            return out          # acceptance of the grammar is C01's clause
+        n = ref['lags'] + ref['leads'] + 3
+        rnd = random.Random(case['seed'])
+        endo = ref['endogenous']
+        from props.parser_bounded import random_data
+        for _ in range(2):
+            data = random_data(rnd, ref['names'], n)
+            for (mi, ma) in ((0, 1), (0, 4), (2, 4), (0, 60), (3, 60)):
+                for tol in (1e-6, 0.05):
+                    for t in (ref['lags'] + 1, ref['lags'] + 1 - n):
+                        nt = t % n
+                        d = {k: v.copy() for k, v in data.items()}
+                        prev = [d[e][nt] for e in endo]
+                        status, its, finite = 'F', ma, all(math.isfinite(x) for x in prev)
+                        with warnings.catch_warnings():
+                            warnings.simplefilter('ignore')
+                            with np.errstate(all='ignore'):
+                                try:
+                                    for it in range(1, ma + 1):
+                                        d = G.reference_pass(p, d, nt)
+                                        cur = [d[e][nt] for e in endo]
+                                        if not all(math.isfinite(x) for x in cur):
+                                            finite = False
+                                            break
+                                        if it >= mi and all(abs(a - b) < tol for a, b in zip(cur, prev)):
+                                            status, its = '.', it
+                                            break
+                                        prev = cur
+                                except Exception:  # noqa: BLE001
+                                    finite = False
+                                if not finite:
+                                    continue
+                                m = Model(range(n), **{k: v.copy() for k, v in data.items()})
+                                try:
+                                    flag = m.solve_t(t, min_iter=mi, max_iter=ma, tol=tol, failures='ignore', errors='raise')
+                                except Exception as ex:  # noqa: BLE001
+                                    out.append(Violation('a run without non-finite values and without failures=raise does not raise', f'c02.grammar.raises:{type(ex).__name__}',
+                                                         dict(case, t=t, min_iter=mi, max_iter=ma, tol=tol), status, f'{type(ex).__name__}: {ex}'[:90]))
+                                    return out
+                        res.nontrivial.add((script, mi, ma, tol, t))
+                        res.cover('solved' if status == '.' else 'failed')
+                        if status == '.' and its == mi and mi > 1:
+                            res.cover('min_iter-binding')
+                        jcase = dict(case, t=t, min_iter=mi, max_iter=ma, tol=tol)
+                        if str(m.status[nt]) != status or int(m.iterations[nt]) != its or flag is not (status == '.'):
+                            out.append(Violation('solved at the first pass >= min_iter in which every check variable moved by less than tol, failed after max_iter passes otherwise; '
+                                                 'iterations is the pass count and the result flag is True iff solved', 'c02.grammar.outcome', jcase,
+                                                 [status, its, status == '.'], [str(m.status[nt]), int(m.iterations[nt]), flag]))
+                            return out
+                        for nm in ref['names']:
+                            if not np.allclose(m[nm], d[nm], rtol=1e-12, atol=0.0, equal_nan=True):
+                                out.append(Violation('the values after solving are those of the last pass', 'c02.grammar.values', dict(jcase, var=nm), d[nm].tolist(), m[nm].tolist()))
+                                return out
+        return out
